@@ -1,3 +1,4 @@
+import Clover.Proofs.BulkExact
 import Clover.Generated.Facts
 import Clover.Props.C17
 import Clover.Proofs.PlannerModel
@@ -111,5 +112,37 @@ theorem source_decision_logic : CV.Facts.logicC02 = [
   "clover..tryToSelectIndex: { indexQueries := getIndexQueries(q, indexes) if len(indexQueries) == 1 { outputSorted := false idxQuery := indexQueries[0] if rangeQuery, ok := idxQuery.(*index.RangeIndexQuery); ok { if len(q.SortOptions()) == 1 && q.SortOptions()[0].Field == rangeQuery.Idx.Field() { rangeQuery.Reverse = q.SortOptions()[0].Direction < 0 outputSorted = true } } return &iterNode{ idxQuery: idxQuery, filter: q.Criteria(), collection: q.Collection(), }, outputSorted } if len(q.SortOptions()) == 1 { for _, idx := range indexes { if idx.Type() == index.SingleField && idx.Field() == q.SortOptions()[0].Field { return &iterNode{ filter: q.Criteria(), collection: q.Collection(), idxQuery: &index.RangeIndexQuery{ Range: nil, Idx: idx.(index.RangeIndex), Reverse: q.SortOptions()[0].Direction < 0, }, }, true } } } return nil, false }", 
   "clover.iterNode.iterateFullCollection: { prefix := []byte(getDocumentKeyPrefix(nd.collection)) return iteratePrefix(prefix, tx, func(item store.Item) error { doc, err := d.Decode(item.Value) if err != nil { return err } if nd.filter == nil || nd.filter.Satisfy(doc) { return nd.CallNext(doc) } return nil }) }", 
   "clover.iterNode.iterateIndex: { iterFunc := func(docId string) error { doc, err := getDocumentById(nd.collection, docId, tx) if err != nil || doc == nil { return err } if nd.filter == nil || nd.filter.Satisfy(doc) { return nd.CallNext(doc) } return nil } err := nd.idxQuery.Run(iterFunc) return err }"] := by rfl
+
+end CV.Props.C02
+
+namespace CV.Props.C02
+open CV
+
+variable (likeFn : LikeFn) (fnFam : FnFam)
+
+/-- **Index transparency of bulk writes, end to end on the model.**  For every index set and whichever
+    plan the planner picks, `Update(q, u)` / `UpdateFunc` with a query without skip/limit (any
+    criteria, any sort) on the key domain: if the specification's step succeeds, the model rewrites a
+    permutation of exactly `FindAll(q)` and the new store represents the specification's new state —
+    which does not mention indexes; if it fails (an updater result that changes `_id` or is
+    invalid), the model fails too and nothing changes. -/
+theorem update_index_transparent (s : Spec.State) (σ : KVS) (hw : WF s) (hr : Rep s σ) (q : Query) (u : Upd)
+    (coll : Spec.Coll) (hl : Spec.lookup q.coll s = some coll) (hdomain : KeyDomain q coll)
+    (hskip : q.skip = 0) (hlimit : q.limit < 0) :
+    let r := withTx true (Op.body likeFn fnFam (.update q u)) noFault σ
+    let sp := Spec.step likeFn fnFam s (.update q u)
+    (sp.1.isErr = true → r.1.isErr = true ∧ r.2.1 = σ) ∧
+    (sp.1.isErr = false → ∃ sel, r.1 = .ok (.docs sel) ∧ sel.Perm (Spec.findAll likeFn fnFam q coll) ∧
+      Rep sp.2 r.2.1 ∧ WF sp.2) :=
+  update_exact_any_plan likeFn fnFam s σ hw hr q u coll hl hdomain hskip hlimit
+
+/-- … and of `Delete(q)`, which never fails in its apply phase. -/
+theorem delete_index_transparent (s : Spec.State) (σ : KVS) (hw : WF s) (hr : Rep s σ) (q : Query)
+    (coll : Spec.Coll) (hl : Spec.lookup q.coll s = some coll) (hdomain : KeyDomain q coll)
+    (hskip : q.skip = 0) (hlimit : q.limit < 0) :
+    let r := withTx true (Op.body likeFn fnFam (.delete q)) noFault σ
+    let sp := Spec.step likeFn fnFam s (.delete q)
+    ∃ sel, r.1 = .ok (.docs sel) ∧ sel.Perm (Spec.findAll likeFn fnFam q coll) ∧ Rep sp.2 r.2.1 ∧ WF sp.2 :=
+  delete_exact_any_plan_ok likeFn fnFam s σ hw hr q coll hl hdomain hskip hlimit
 
 end CV.Props.C02
